@@ -234,7 +234,7 @@ fn check_c14(g: &G, sel: u64, mut vd: Verdict) -> Verdict {
     if pick >= g.dels.len() + rparens.len() {
         // cut inside open call parentheses: every '(' still open (the call's own, nested groups in
         // argument text, expression parentheses) gets its zero-width ')' at end of input
-        let (off, open) = g.trunc_points[pick - g.dels.len() - rparens.len()];
+        let (off, open, calls) = g.trunc_points[pick - g.dels.len() - rparens.len()];
         let m = src[..off].to_string();
         vd.key = m.clone();
         vd.label(format!("truncated-inside-parens:open={}", open.min(6)));
@@ -253,6 +253,13 @@ fn check_c14(g: &G, sel: u64, mut vd: Verdict) -> Verdict {
             vd.violations.push(Violation::new("C14", "not-diagnosed", "not-diagnosed:MissingExpectedRParen:inside-parens", format!("expected MissingExpectedRParen at end of input (byte {exp}): {show}; errors: {:?}", r.errs.iter().map(|e| (e.k, e.b)).collect::<Vec<_>>())));
         } else if virt != open {
             vd.violations.push(Violation::new("C14", "no-recovery-token", "no-recovery-token:RPAREN:count", format!("{open} parentheses are open at end of input but {virt} zero-width RPAREN tokens were inserted: {show}")));
+        } else {
+            // every call / built-in / definition whose own ')' is missing is diagnosed (nested groups in argument text and
+            // expression parentheses always get their recovery token, and sometimes a diagnostic of their own)
+            let nerr = r.errs.iter().filter(|e| e.k == crate::api::EK::MissingExpectedRParen && e.b as usize == exp).count();
+            if nerr < calls || nerr > open {
+                vd.violations.push(Violation::new("C14", "not-diagnosed", "not-diagnosed:MissingExpectedRParen:count", format!("{calls} calls ({open} parentheses) are still open at end of input but {nerr} MissingExpectedRParen errors were reported: {show}")));
+            }
         }
         vd.nontrivial = true;
         return vd;
